@@ -13,6 +13,7 @@ EXTENDS Require, Json
 
 CONSTANTS NNames,    \* number of module names
           NameSel,   \* 1: a, b, c   2: a, p.q, p.q.r, p.q.r.s (0 to 3 dots)   3: string, package, x, y, table (host mode)
+                     \* 4: package, a, b (sandbox mode: global "package" hidden, package.loaders edited / replaced)
           PathSel,   \* 1: d1/?.lua;d2/?.lua   2: d1/?.lua;d2/?/init.lua;d3/?/x-?.lua (several marks)
           BehIdx,    \* indices into BehT usable by installed loaders
           Srcs,      \* subset of {"L", "H", "F1", "F2", "F3"}: Lua preload, host PreloadModule, file for template 1 / 2 / 3
@@ -24,7 +25,9 @@ CONSTANTS NNames,    \* number of module names
 
 AllParts == CASE NameSel = 1 -> <<<<"a">>, <<"b">>, <<"c">>>>
               [] NameSel = 2 -> <<<<"a">>, <<"p", "q">>, <<"p", "q", "r">>, <<"p", "q", "r", "s">>>>
-              [] OTHER -> <<<<"string">>, <<"package">>, <<"x">>, <<"y">>, <<"table">>>>   \* host mode
+              [] NameSel = 3 -> <<<<"string">>, <<"package">>, <<"x">>, <<"y">>, <<"table">>>>   \* host mode
+              [] OTHER -> <<<<"package">>, <<"a">>, <<"b">>>>      \* sandbox mode: the library "package" is observed too
+Sandbox == NameSel = 4  \* scripts hide the global "package" and edit / replace package.loaders
 Host == NameSel = 3     \* the state starts without libraries; the host opens them in any order
 Parts == SubSeq(AllParts, 1, NNames)
 RECURSIVE MapName(_)
@@ -38,6 +41,7 @@ T3 == <<<<"d3">>, <<"?">>, <<"x-", "?", ".lua">>>>
 Path == IF PathSel = 1 THEN <<T1, T2>> ELSE <<T1, T2i, T3>>
 
 NS == SeqSet(Names)
+UNS == NS \ {"package"}       \* the modules histories install loaders for
 Other(n) == LET i == CHOOSE i \in 1..Len(Names) : Names[i] = n IN Names[(i % Len(Names)) + 1]
 
 B(pre, reqs, post, fail, ret) == [pre |-> pre, reqs |-> reqs, post |-> post, fail |-> fail, ret |-> ret]
@@ -69,7 +73,7 @@ vars == <<st, hist, res>>
 Clr(s) == [s EXCEPT !.log = <<>>]
 mcview == <<Clr(st), Len(hist)>>
 
-Init == /\ st = InitState(Names, Parts, 0, Path, Host)
+Init == /\ st = InitState(Names, Parts, IF Sandbox THEN 1 ELSE 0, Path, Host)
         /\ hist = <<>>
         /\ res = NoRes
 
@@ -120,17 +124,26 @@ HostNext ==
     \/ \E i \in BehIdx : st.preload["y"].lid = "none" /\ Do([op |-> "preload", n |-> "y", host |-> TRUE, b |-> i])
     \/ \E n \in NS : Do([op |-> "req", n |-> n])
 
+(* sandbox mode: the global "package" is set to nil / a number / put back;   *)
+(* package.loaders is edited in place or replaced by a new table holding the *)
+(* listed searchers                                                           *)
+SearcherLists == {<<"C">>, <<"F", "P">>, <<"N", "P", "F">>, <<"P", "N">>, <<>>, <<"P", "F">>}
+SandboxNext ==
+    \/ \E k \in {"nil", "num", "loaded"} : Do([op |-> "glob", n |-> "package", kind |-> k])
+    \/ \E how \in {"replace", "inplace"}, l \in SearcherLists : Do([op |-> "loaders", n |-> "package", how |-> how, list |-> l])
+
 Next ==
     /\ Len(hist) < MaxHist
     /\ IF Host THEN HostNext ELSE
        \/ \E n \in NS : Do([op |-> "req", n |-> n])
-       \/ \E n \in NS : st.loaded[n] # Nil /\ Do([op |-> "clear", n |-> n])
-       \/ \E n \in NS, h \in {s \in Srcs : s \in {"L", "H"}}, i \in BehIdx :
+       \/ Sandbox /\ SandboxNext
+       \/ \E n \in UNS : st.loaded[n] # Nil /\ Do([op |-> "clear", n |-> n])
+       \/ \E n \in UNS, h \in {s \in Srcs : s \in {"L", "H"}}, i \in BehIdx :
              Do([op |-> "preload", n |-> n, host |-> (h = "H"), b |-> i])
-       \/ \E n \in NS, t \in FileTs, i \in BehIdx, sp \in (IF Decoys THEN 1..4 ELSE {1}) :
+       \/ \E n \in UNS, t \in FileTs, i \in BehIdx, sp \in (IF Decoys THEN 1..4 ELSE {1}) :
              SplitOK(n, sp) /\ Do([op |-> "file", n |-> n, t |-> t, s |-> sp, syn |-> FALSE, b |-> i, path |-> FilePath(n, t, sp)])
        \/ /\ Extra
-          /\ \/ \E n \in NS : st.preload[n].lid # "none" /\ Do([op |-> "unpreload", n |-> n])
+          /\ \/ \E n \in UNS : st.preload[n].lid # "none" /\ Do([op |-> "unpreload", n |-> n])
              \/ \E n \in NS, t \in 1..Len(Path) :
                    CandLoader(st, n, t).lid # "none" /\ Do([op |-> "rmfile", n |-> n, t |-> t, path |-> FilePath(n, t, 1)])
              \/ \E n \in NS : 1 \in FileTs /\ Do([op |-> "file", n |-> n, t |-> 1, s |-> 1, syn |-> TRUE, b |-> 1, path |-> FilePath(n, 1, 1)])
@@ -154,8 +167,8 @@ CacheHit ==
 (* its global name, whatever the order in which things were opened           *)
 HostReachable ==
     \A n \in NS \cap {"string", "table", "package"} : (n \in st.opened /\ Ready(st)) =>
-        /\ IsTbl(st, st.glob[n]) /\ st.loaded[n] = st.glob[n]
-        /\ DoRequire(Clr(st), n).res = Ok(st.glob[n])
+        /\ IsTbl(st, st.loaded[n]) /\ DoRequire(Clr(st), n).res = Ok(st.loaded[n])
+        /\ Sandbox \/ st.loaded[n] = st.glob[n]        \* (sandbox histories assign the global on purpose)
 
 (* the mark of a loader in progress / failed makes require fail, not load   *)
 SentinelIsLoop ==
@@ -184,20 +197,21 @@ FailureLeavesSentinel ==
     (IsReq /\ Falsy(Op.n) /\ Found(Op.n).kind = "found" /\ IsErr(res')
        /\ Found(Op.n).ld.beh.pre = "none" /\ Found(Op.n).ld.beh.post = "none") => st'.loaded[Op.n] = Sent
 
+Std == st.searchers = StdSearchers
 PreloadFirst ==
-    (IsReq /\ Falsy(Op.n) /\ st.preload[Op.n].lid # "none") =>
+    (Std /\ IsReq /\ Falsy(Op.n) /\ st.preload[Op.n].lid # "none") =>
         (Len(st'.log) >= 1 /\ st'.log[1] = <<"run", st.preload[Op.n].lid, Op.n>>)
 
 (* the path searcher: the first template whose file exists decides; a file   *)
 (* that does not compile is an error that leaves nothing behind; without any  *)
 (* file the error lists the preload attempt and every template's file name    *)
 PathOrder ==
-    (IsReq /\ Falsy(Op.n) /\ st.preload[Op.n].lid = "none") =>
+    (Std /\ IsReq /\ Falsy(Op.n) /\ st.preload[Op.n].lid = "none") =>
         LET n == Op.n
             has == {i \in 1..NT(st) : CandLoader(st, n, i).lid # "none"}
         IN IF has = {}
            THEN /\ res' = <<"err", "notfound", n, "P">> \o CandRaws(st, n)
-                /\ Len(res') = 4 + Len(Path)
+                /\ Len(res') = 4 + Len(st.path)
                 /\ st' = Clr(st)
            ELSE LET i == CHOOSE i \in has : \A j \in has : i <= j
                     f == CandLoader(st, n, i)
@@ -211,7 +225,7 @@ PathOrder ==
 InstallerOf(lid) == hist'[CHOOSE k \in 1..Len(hist') : ("L" \o ToString(k)) = lid]
 DecoyNeverLoaded ==
     \A j \in 1..Len(st'.log) : st'.log[j][1] = "run" =>
-        LET c == InstallerOf(st'.log[j][2]) IN c.op = "preload" \/ (c.op = "file" /\ c.s = 1)
+        LET c == InstallerOf(st'.log[j][2]) IN c.op \in {"preload", "loaders"} \/ (c.op = "file" /\ c.s = 1)
 Marks(t) == LET RECURSIVE Cnt(_)
                 Cnt(x) == IF Len(x) = 0 THEN 0 ELSE Cardinality({k \in 1..Len(x[1]) : x[1][k] = Mark}) + Cnt(Tail(x))
             IN Cnt(t)
@@ -267,6 +281,30 @@ OpenKeepsLoaded ==
         \A n \in NS : \/ (st'.loaded[n] = st.loaded[n] /\ st'.glob[n] = st.glob[n])
                       \/ (n = LibName(Op.lib) /\ ~IsTbl(st, st.loaded[n]))
 
+(* require obeys the CURRENT content of package.loaders - edited in place or *)
+(* replaced - in its order, and never depends on the global "package":       *)
+(*  a leading custom searcher that finds everything loads every unloaded     *)
+(*  module; with the path searcher before the preload searcher a file beats  *)
+(*  a preload entry; with no searcher, or only refusing ones, nothing is     *)
+(*  loaded and the error lists exactly the refusals of the current searchers *)
+SearchersObeyed ==
+    (IsReq /\ Falsy(Op.n) /\ Len(st.searchers) >= 0) =>
+        LET n == Op.n
+            ss == st.searchers
+        IN /\ (Len(ss) >= 1 /\ ss[1].k = "C") => (Len(st'.log) >= 1 /\ st'.log[1] = <<"run", ss[1].lid, n>>)
+           /\ (Len(ss) = 0) => (res' = <<"err", "notfound", n>> /\ st' = Clr(st))
+           /\ (Len(ss) >= 2 /\ ss[1].k = "F" /\ ss[2].k = "P" /\ st.preload[n].lid # "none"
+                 /\ \E t \in 1..NT(st) : CandLoader(st, n, t).lid # "none" /\ ~CandLoader(st, n, t).syn
+                                          /\ \A u \in 1..(t - 1) : CandLoader(st, n, u).lid = "none")
+                => (Len(st'.log) >= 1 /\ st'.log[1][1] = "run" /\ st'.log[1][2] # st.preload[n].lid)
+           /\ (\A i \in 1..Len(ss) : ss[i].k = "N") =>
+                 (res' = <<"err", "notfound", n>> \o [i \in 1..Len(ss) |-> "N:" \o ss[i].lid] /\ st' = Clr(st))
+GlobalPackageIrrelevant ==
+    (Op.op = "glob" /\ Op.n = "package") =>
+        \A n \in NS : LET a == DoRequire(Clr(st), n)
+                          b == DoRequire(Clr(st'), n)
+                      IN a.res = b.res /\ a.st.loaded = b.st.loaded /\ a.st.log = b.st.log
+
 SelfLoop ==
     (IsReq /\ Falsy(Op.n) /\ Found(Op.n).kind = "found") =>
         LET ld == Found(Op.n).ld
@@ -298,6 +336,7 @@ RegisterReachable ==
 StepLaws == /\ CacheStable /\ ResultIsCached /\ SentinelOnlyAfterFailure /\ FailureLeavesSentinel
             /\ PreloadFirst /\ PathOrder /\ DecoyNeverLoaded /\ NothingMeansTrue /\ ReturnedValueWins /\ SelfLoop /\ MutualLoop
             /\ RegisterReachable /\ ModuleResultIsGlobalTable /\ UnloadReloads /\ OpenKeepsLoaded
+            /\ SearchersObeyed /\ GlobalPackageIrrelevant
 Laws == [][StepLaws]_vars
 
 (* ---- GEN ------------------------------------------------------------------- *)
